@@ -253,7 +253,7 @@ P("C13", "proof", "Lean 4 byte-level theorem (cut at the end of the stem) + mode
   "exactly at the end of the stem whatever trails the file name (set_ext_bytes); the cut is followed by a dot, a junk "
   "token or nothing, i.e. never inside a name, hence on a character boundary of a valid UTF-8 buffer "
   "(set_ext_cut_boundary); without a file name it returns false and leaves the buffer untouched (set_ext_false, "
-  "set_ext_true_iff). Windows re-parse: for every covered base without a verbatim prefix and every separator-free extension the result has the old components with the file name replaced by stem[.x] — same parent, new file name — and is again covered (C13b.win_set_ext_comps, win_set_ext_name_parent).",
+  "set_ext_true_iff). Windows re-parse: for every covered base without a verbatim prefix and every separator-free extension the result has the old components with the file name replaced by stem[.x] — same parent, new file name — and is again covered (C13b.win_set_ext_comps, win_set_ext_name_parent); the same under a complete VERBATIM prefix, for either separator set and flag (C13c.win_set_ext_comps_verbatim: old components with the file name replaced, same prefix parsed again).",
   "For Unix the result is also proved to re-parse with the old parent's components and the file name stem[.x] "
   "(C12b.unix_set_ext_comps, unix_set_ext_name_parent; the corner stem in {., ..} with empty x is excluded exactly as "
   "in std), and the result of a valid UTF-8 buffer is valid UTF-8 (C14.set_extension_valid). "
